@@ -64,4 +64,5 @@ META["C01"]["text"] += " A second interpreter, generic in the key type (strings,
 META["C02"]["text"] += " Compute functions and loaders that panic are part of the operation mix (an atomic read that changes nothing / a failed load); single-writer filler keys are read back across table resizes."
 META["C02"]["note"] = S4NOTE + " A porcupine time-out is inconclusive."
 META["C13"]["text"] += " 'tick' actions fire the clock's ticker so that the cache's own periodic clean-up goroutine runs the maintenance."
+META["C19"]["text"] += " Two further tests: the save runs while bystander goroutines compete for the eviction lock without changing the contents (free-running), and the key-type interpreter of C01 saves and reloads caches keyed by strings, structs (incl. padding and zero-valued fields), arrays and floats."
 NOT_APPLICABLE = {}
